@@ -14,13 +14,15 @@ aggregate `agg`; the `Int` instance (`aggInt`) is what the executable driver run
 -/
 import LinVerif.Lemmas.C03Compact
 import LinVerif.Lemmas.C03Ratio
+import LinVerif.Lemmas.C03Split
+import LinVerif.Lemmas.C03Reader
 import LinVerif.Model.Rollup
 import LinVerif.Generated.C03
 
 set_option linter.unusedSectionVars false
 set_option linter.unusedSimpArgs false
 namespace LinVerif.Props.C03
-open LinVerif LinVerif.Map LinVerif.MetricBlock LinVerif.Merge LinVerif.Compact LinVerif.C03
+open LinVerif LinVerif.Map LinVerif.MetricBlock LinVerif.Merge LinVerif.Compact LinVerif.C03 LinVerif.BlockWriter
 
 variable {V : Type}
 
@@ -242,6 +244,52 @@ theorem merge_ratio_placement_is_C04 (cfg : Cfg) (tStart t : Nat) :
   push_cast
   rfl
 
+/-! ### the block writer (flusher) and the way back through the reader -/
+
+/-- the value a reader of a written block finds for a cell -/
+def encGet (e : EncBlock V) (s f t : Nat) : Option V :=
+  match readField e s f with
+  | none => none
+  | some vals => if e.start ≤ t ∧ t ≤ e.stop then lookup vals t else none
+
+/-- **flush_then_read.** The block writer's layout bookkeeping (`Model/BlockWriter.lean`: per-container
+series buckets with their low-key offsets written when the high key of the series id changes,
+absolute high-key offsets, `Level3.startAt`/`Level4.startAt` re-based at every bucket and entry,
+bare data for a single-field metric, data + field offsets + their length for a multi-field one,
+nothing at all for `FlushField(nil)`) and the reader's slicing (`readEntry`, `readField`) are
+inverse: for series ids in any number of roaring containers (ascending, as both callers write
+them), any field subsets per series, zero-length entries and buckets included, the reader finds in
+the written block exactly the field data handed to the writer — and the same series ids and field metas. -/
+theorem flush_then_read (b : Block V) (hf : b.fields ≠ []) (hne : b.series ≠ [])
+    (hs : b.seriesIds.Pairwise (· < ·)) :
+    ∃ e, writeBlock b = some e ∧ e.fields = b.fields ∧ e.ids = b.seriesIds ∧
+      e.start = b.start ∧ e.stop = b.stop ∧
+      (∀ s f, readField e s f = b.fieldData s f) ∧ (∀ s f t, encGet e s f t = b.get s f t) := by
+  obtain ⟨e, hw, h1, h2, h3⟩ := writeBlock_read b hf hne hs
+  have hst : e.start = b.start ∧ e.stop = b.stop := by
+    unfold writeBlock at hw
+    simp only [] at hw
+    by_cases hc : (writeAll b).ids.isEmpty = true
+    · rw [if_pos hc] at hw; cases hw
+    · rw [if_neg hc] at hw
+      simp only [Option.some.injEq] at hw; subst hw; exact ⟨rfl, rfl⟩
+  refine ⟨e, hw, h1, h2, hst.1, hst.2, h3, ?_⟩
+  intro s f t
+  unfold encGet Block.get
+  rw [h3 s f, hst.1, hst.2]
+  cases b.fieldData s f <;> rfl
+
+/-- merged blocks are written by the same writer: what the merger hands to `FlushField`/`FlushSeries`
+is read back unchanged (the merged block has series ascending and at least one field whenever an
+input has) -/
+theorem merged_block_flush_then_read (tol : Bool) (agg : FieldType → V → V → V) (bs : List (Block V))
+    (hf : (mergeBlocks tol agg bs).fields ≠ []) (hne : (mergeBlocks tol agg bs).series ≠ []) :
+    ∃ e, writeBlock (mergeBlocks tol agg bs) = some e ∧
+      ∀ s f t, encGet e s f t = (mergeBlocks tol agg bs).get s f t := by
+  obtain ⟨e, hw, _, _, _, _, _, h⟩ := flush_then_read (mergeBlocks tol agg bs) hf hne
+    (merge_series_sorted tol agg bs)
+  exact ⟨e, hw, h⟩
+
 /-! ## 2. One compaction of a family -/
 
 /-- **compaction_preserves_view** (sum, min, max, histogram — any commutative associative
@@ -333,6 +381,126 @@ theorem compaction_preserves_invariant (agg : FieldType → V → V → V) (sch 
 theorem flush_preserves_invariant (sch : Nat → Nat → FieldType) (tol : Bool) (st : Family V)
     (es : List (Nat × Block V)) (hwf : StateWF sch tol st) (hes : EntriesOK sch tol es) :
     StateWF sch tol (flush st es) := stateWF_flush sch tol st es hwf hes
+
+/-! ### the merge of one metric depends on that metric's blocks only -/
+
+/-- the entry the compaction writes for key `m`: the merge of exactly the blocks stored under `m`
+in the input files, in the order the merged iterator delivered them; nothing if no input has `m` -/
+theorem merged_entry_of_key (agg : FieldType → V → V → V) (p : Params V) (P : List (File V))
+    (hsh : ∀ l, (p.shuffle l).Perm l) (m : Nat) :
+    lookup (mergedEntries agg p P) m =
+      (if valuesOf (sortByKey (p.shuffle (P.flatMap (fun f => f.entries)))) m = [] then none
+       else some (mergeBlocks p.tolerant agg (valuesOf (sortByKey (p.shuffle (P.flatMap (fun f => f.entries)))) m))) := by
+  obtain ⟨_, g3, _⟩ := groups_from_inputs p P hsh
+  unfold mergedEntries
+  rw [lookup_map_vals (mergeGroups p P) (fun _ v => mergeBlocks p.tolerant agg v) m, g3 m]
+  by_cases e : valuesOf (sortByKey (p.shuffle (P.flatMap (fun f => f.entries)))) m = [] <;> simp [e]
+
+/-- **merge_is_per_metric.** Two compaction jobs whose inputs deliver the same blocks for metric `m`
+(whatever other metrics they hold, before or after `m`) write the same block for `m`: the merge of
+a metric is a function of that metric's blocks — no state is carried from one `Merge` call to the
+next (`tie_merger_stateless`: `merger` has only the flusher, the series merger and the rollup
+context, none assigned during `Merge`; the writer is `reset()` by `CommitMetric`). -/
+theorem merge_is_per_metric (agg : FieldType → V → V → V) (p : Params V) (P₁ P₂ : List (File V))
+    (hsh : ∀ l, (p.shuffle l).Perm l) (m : Nat)
+    (h : valuesOf (sortByKey (p.shuffle (P₁.flatMap (fun f => f.entries)))) m =
+         valuesOf (sortByKey (p.shuffle (P₂.flatMap (fun f => f.entries)))) m) :
+    lookup (mergedEntries agg p P₁) m = lookup (mergedEntries agg p P₂) m := by
+  rw [merged_entry_of_key agg p P₁ hsh m, merged_entry_of_key agg p P₂ hsh m, h]
+
+/-! ### the output split -/
+
+/-- **split_preserves_entries.** Whatever `maxFileSize` and the block sizes are, the output files of a
+merge compaction over scannable, well-formed files hold — concatenated in file order — exactly the
+merged entries (each (key, block) pair once, order kept); their key ranges ascend strictly (every file
+ends below the start of every later one), each is a well-formed table, every key is answered by
+exactly one file, and these files are what the completed job installs in level 1. (The model's split
+registers the key of an entry in the file that is open when it is committed and only then lets
+`afterAdd` finish the file: `tie_stream_writer_order`.) -/
+theorem split_preserves_entries (agg : FieldType → V → V → V) (sch : Nat → Nat → FieldType)
+    (p : Params V) (st : Family V) (hwf : StateWF sch p.tolerant st) (hsh : ∀ l, (p.shuffle l).Perm l) :
+    let entries := mergedEntries agg p (st.l0 ++ pickUp st.l0 st.l1)
+    let outs := (splitLoop p.size p.maxFileSize entries [] 0).filterMap mkFile
+    outs.flatMap (fun f => f.entries) = entries ∧
+    outs.Pairwise (fun f g => f.maxKey < g.minKey) ∧
+    (∀ f ∈ outs, FileWF f) ∧
+    (keys entries).Pairwise (· < ·) ∧
+    (∀ m, outs.filterMap (fun f => f.get m) = (lookup entries m).toList) ∧
+    ((compact agg p st).2 = .merged → (compact agg p st).1.l1 = restUp st.l0 st.l1 ++ outs) := by
+  intro entries outs
+  have hPmem : ∀ f ∈ st.l0 ++ pickUp st.l0 st.l1, f ∈ st.files := by
+    intro f hf
+    rcases List.mem_append.mp hf with h1 | h1
+    · exact List.mem_append_left _ h1
+    · exact List.mem_append_right _ (List.mem_filter.mp h1).1
+  obtain ⟨g1, _, _⟩ := groups_from_inputs p (st.l0 ++ pickUp st.l0 st.l1) hsh
+  obtain ⟨hG, _⟩ := mergedEntries_ideal agg p (st.l0 ++ pickUp st.l0 st.l1)
+    (fun f hf => (hwf f (hPmem f hf)).2.2) hsh
+  have hkeys : (keys entries).Pairwise (· < ·) := by
+    show (keys (mergedEntries agg p (st.l0 ++ pickUp st.l0 st.l1))).Pairwise (· < ·)
+    rw [hG, keys_map_vals]; exact g1
+  obtain ⟨s1, s2⟩ := splitLoop_spec p.size p.maxFileSize entries [] 0
+  simp only [List.nil_append] at s1
+  have hflat : (keys (splitLoop p.size p.maxFileSize entries [] 0).flatten).Pairwise (· < ·) := by
+    rw [s1]; exact hkeys
+  refine ⟨?_, outs_ranges_ascending _ s2 hflat, fun f hf => (chunks_files_wf _ s2 hflat f hf).1, hkeys, ?_, ?_⟩
+  · have := outs_entries _ s2
+    show ((splitLoop p.size p.maxFileSize entries [] 0).filterMap mkFile).flatMap (fun f => f.entries) = entries
+    rw [List.flatMap_def, this, s1]
+  · intro m
+    show ((splitLoop p.size p.maxFileSize entries [] 0).filterMap mkFile).filterMap (fun f => f.get m) = _
+    rw [chunks_get _ s2 hflat m, s1]
+  · intro hm
+    unfold compact at hm ⊢
+    by_cases h1 : st.l0.length < p.threshold
+    · rw [if_pos h1] at hm; cases hm
+    · rw [if_neg h1] at hm ⊢
+      simp only [] at hm ⊢
+      by_cases h2 : st.l0.length = 1 ∧ (pickUp st.l0 st.l1).isEmpty
+      · rw [if_pos h2] at hm; cases hm
+      · rw [if_neg h2] at hm ⊢
+        split at hm
+        · cases hm
+        · rename_i h3
+          rw [if_neg h3]
+
+/-- **first/last, exactly what a compaction guarantees.** The block written for metric `m` holds,
+for a `Last` field, the value of the LAST block — in the order in which the merged iterator
+delivered the blocks of key `m` — that has the cell, for a `First` field the value of the first
+such block. That order is a permutation of the input files' order which depends on the shape of the
+iterator's heap (C15 `merge_order_among_equal_keys`: only the pairs of ONE input keep their order;
+between inputs nothing is promised, witness `Props.C15.Neg.merge_ties_not_by_input_order`), and the
+order in which a reader visits the files of a level is a Go map iteration order. Hence no statement
+stronger than membership (`compaction_member`, `compaction_view_member`) holds for what a reader
+sees before and after: `Neg.first_last_depend_on_tie_order`. -/
+theorem compaction_last_first_exact (p : Params Int) (P : List (File Int)) (hwfP : ∀ f ∈ P, BlocksGood p.tolerant f)
+    (hsh : ∀ l, (p.shuffle l).Perm l) (m s f t : Nat) (blk : Block Int)
+    (hb : lookup (mergedEntries aggInt p P) m = some blk) :
+    (blk.fieldType? f = some .last →
+      blk.get s f t = ((valuesOf (sortByKey (p.shuffle (P.flatMap (fun f => f.entries)))) m).filterMap
+        (fun b => b.get s f t)).getLast?) ∧
+    (blk.fieldType? f = some .first →
+      blk.get s f t = ((valuesOf (sortByKey (p.shuffle (P.flatMap (fun f => f.entries)))) m).filterMap
+        (fun b => b.get s f t)).head?) := by
+  rw [merged_entry_of_key aggInt p P hsh m] at hb
+  by_cases e : valuesOf (sortByKey (p.shuffle (P.flatMap (fun f => f.entries)))) m = []
+  · rw [if_pos e] at hb; cases hb
+  · rw [if_neg e] at hb
+    simp only [Option.some.injEq] at hb
+    subst hb
+    obtain ⟨_, _, hfrom⟩ := groups_from_inputs p P hsh
+    obtain ⟨_, g3, _⟩ := groups_from_inputs p P hsh
+    have hgood : ∀ b ∈ valuesOf (sortByKey (p.shuffle (P.flatMap (fun f => f.entries)))) m,
+        GoodBlock p.tolerant b := by
+      intro b hb
+      have hl := g3 m
+      rw [if_neg e] at hl
+      have hmem : (m, valuesOf (sortByKey (p.shuffle (P.flatMap (fun f => f.entries)))) m) ∈ mergeGroups p P :=
+        lookup_mem hl
+      obtain ⟨f', hf', hin⟩ := (hfrom _ hmem).2 b hb
+      exact hwfP f' hf' m b hin
+    exact ⟨fun h => merge_last_exact p.tolerant _ hgood s f t h,
+           fun h => merge_first_exact p.tolerant _ hgood s f t h⟩
 
 /-- when does the compaction job complete? On scannable files (`StateWF`): always if the stream
 writer follows the current output builder; otherwise iff the output fits one file. -/
@@ -667,6 +835,52 @@ theorem tie_no_shared_scratch :
     Generated.C03.downSamplingPackageVars = ["float64Pool", "infFilledBlock"] := by
   decide
 
+/-- nothing survives a `Merge` call inside the merger: its struct holds the block writer, the series
+merger and the rollup context only, none of them is assigned while merging; the series merger holds
+the writer only. (A field-reader cache kept across metrics — seeded c03-9 — adds a struct field.) -/
+theorem tie_merger_stateless :
+    Generated.C03.mergerStructFields = ["dataFlusher", "seriesMerger", "rollup"] ∧
+    Generated.C03.mergerAssignsInMerge = [] ∧
+    Generated.C03.seriesMergerStructFields = ["flusher"] ∧
+    Generated.C03.seriesMergerAssigns = [] := by
+  refine ⟨rfl, rfl, rfl, rfl⟩
+
+/-- the block writer's bookkeeping as the model mirrors it (`Model/BlockWriter.lean`):
+`FlushSeries` — deferred `Level4.startAt = Size()`; first series sets the high key; a high-key change
+flushes the bucket, resets the low-key offsets and re-bases `Level3.startAt`, adds the absolute
+high-key offset and re-bases `Level4.startAt` (seeded c03-8 drops this one); `flushField` —
+`fieldDataAt = Size() - Level4.startAt`; `flushLevel2SeriesBucket` — position relative to
+`Level3.startAt`, nothing for an empty bucket; `CommitMetric` defers `reset()`, which clears all of it. -/
+theorem tie_flusher_bookkeeping :
+    Generated.C03.flushSeriesAssigns = ["w.Level4.startAt = int(w.kvWriter.Size())",
+      "w.Level3.isHighKeySetEver = true", "w.Level3.highKey = highKey", "w.Level3.highKey = highKey",
+      "w.Level3.startAt = int(w.kvWriter.Size())", "w.Level4.startAt = int(w.kvWriter.Size())"] ∧
+    Generated.C03.flushSeriesChecks = ["!seriesHasData", "!w.Level3.isHighKeySetEver",
+      "highKey != w.Level3.highKey", "err != nil", "err != nil"] ∧
+    Generated.C03.flushSeriesCalls = ["defer:?", "encoding.HighBits", "w.flushLevel2SeriesBucket",
+      "lowKeyOffsets.Reset", "kvWriter.Size", "int", "kvWriter.Size", "int", "highKeyOffsets.Add",
+      "kvWriter.Size", "int", "kvWriter.Size", "int", "lowKeyOffsets.Add", "w.flushField", "seriesIDs.Add"] ∧
+    Generated.C03.flushFieldAssigns = ["w.Level4.fieldAppendIdx = 0",
+      "fieldDataAt := int(w.kvWriter.Size()) - w.Level4.startAt"] ∧
+    Generated.C03.flushFieldCalls = ["defer:?", "fieldMetas.Len", "kvWriter.Size", "int", "kvWriter.Write",
+      "fieldDataOffsets.Add", "w.writeLevel4OffsetsFooter"] ∧
+    Generated.C03.flushBucketAssigns = ["posOfLowKeyOffsets := int(w.kvWriter.Size()) - w.Level3.startAt"] ∧
+    Generated.C03.flushBucketChecks = ["posOfLowKeyOffsets <= 0", "err != nil"] ∧
+    Generated.C03.prepareMetricCalls = ["kvWriter.Prepare", "highKeyOffsets.Add", "len", "make", "w.prepareEncoder"] ∧
+    Generated.C03.flusherResetAssigns = ["w.Level2.fieldMetas = w.Level2.fieldMetas[:0]", "w.Level3.startAt = 0",
+      "w.Level3.isHighKeySetEver = false", "w.Level4.startAt = 0"] ∧
+    Generated.C03.flusherResetCalls = ["seriesIDs.Clear", "highKeyOffsets.Reset", "lowKeyOffsets.Reset",
+      "fieldDataOffsets.Reset"] ∧
+    Generated.C03.commitMetricFirstCalls = ["defer:w.reset", "seriesIDs.IsEmpty", "w.flushLevel2SeriesBucket"] := by
+  refine ⟨rfl, rfl, rfl, rfl, rfl, rfl, rfl, rfl, rfl, rfl, rfl⟩
+
+/-- the stream-writer wrapper registers the key with the current builder BEFORE `afterAdd` may finish the
+output file (seeded c03-7 swaps the two), and re-opens/re-binds BEFORE it prepares the next key -/
+theorem tie_stream_writer_order :
+    Generated.C03.streamWriterCommitCalls = ["StreamWriter.Commit", "compactFlusher.afterAdd"] ∧
+    Generated.C03.streamWriterPrepareCalls = ["cf.beforeAdd", "builder.StreamWriter", "StreamWriter.Prepare"] := by
+  refine ⟨rfl, rfl⟩
+
 /-- the model's `tol` flag is read off `nextContainer`: does it have a branch for a zero-length bucket -/
 theorem tie_tolerant :
     Generated.C03.scannerToleratesEmptyBucket =
@@ -770,6 +984,30 @@ theorem dead_first_bucket_fails :
     (compact aggInt (dParams true) dState).2 = .merged := by
   decide
 
+/-! first/last: membership is all there is -/
+
+def lBlock (v : Int) : Block Int :=
+  { fields := [(1, .last)], start := 0, stop := 0, series := [(7, [(1, [(0, v)])])] }
+
+def lState : Family Int :=
+  { l0 := [{ minKey := 1, maxKey := 1, entries := [(1, lBlock 5)] },
+           { minKey := 1, maxKey := 1, entries := [(1, lBlock 9)] }], l1 := [] }
+
+def lParams (sh : List (Nat × Block Int) → List (Nat × Block Int)) : Params Int :=
+  { threshold := 0, maxFileSize := 1000, size := fun _ _ => 1, shuffle := sh, rebind := true, tolerant := true }
+
+/-- two level-0 files hold the same slot of a `last` field (5 and 9). Both tie orders of the merged
+iterator are permutations; one compaction keeps 9, the other 5; a reader of the uncompacted files
+sees 9 or 5 depending on the order in which it visits the two files. Each outcome is one of the
+contributed values, and that is all that can be said. -/
+theorem first_last_depend_on_tie_order :
+    view (aggInt .last) (compact aggInt (lParams id) lState).1 1 7 1 0 = some 9 ∧
+    view (aggInt .last) (compact aggInt (lParams List.reverse) lState).1 1 7 1 0 = some 5 ∧
+    view (aggInt .last) lState 1 7 1 0 = some 9 ∧
+    view (aggInt .last) { lState with l0 := lState.l0.reverse } 1 7 1 0 = some 5 ∧
+    contrib lState 1 7 1 0 = [5, 9] := by
+  decide
+
 /-- `dA` is exactly what `GoodBlock false` excludes, and what `GoodBlock true` admits -/
 theorem dA_not_good : ¬ GoodBlock false dA ∧ GoodBlock true dA := by
   constructor
@@ -826,6 +1064,19 @@ def exA : Block Int :=
   { fields := [(1, .last), (2, .first)], start := 0, stop := 1, series := [(7, [(1, [(0, 5)]), (2, [(0, 5)])])] }
 def exB : Block Int :=
   { fields := [(2, .first), (1, .last)], start := 0, stop := 3, series := [(7, [(1, [(0, 9)]), (2, [(0, 9)])])] }
+
+/-- the writer/reader pair on a concrete block: two containers, a multi-field metric, a series without
+one field, a series without any data -/
+def exW : Block Int :=
+  { fields := [(3, .sum), (1, .min)], start := 2, stop := 9,
+    series := [(5, [(3, [(2, 10)]), (1, [(4, -1)])]), (65540, [(1, [(9, 7)])]), (65541, [])] }
+
+example : (match writeBlock exW with
+    | none => false
+    | some e => e.highOffs == [0, 6] && e.stream.length == 13 &&
+        readField e 65540 1 == some [(9, 7)] && readField e 65540 3 == none &&
+        readField e 5 3 == some [(2, 10)] && readField e 65541 1 == none) = true := by
+  decide
 
 /-- first/last really depend on the order: two blocks, `last` keeps the second, `first` the first -/
 example : (mergeBlocks false aggInt [exA, exB]).get 7 1 0 = some 9 ∧
